@@ -1,6 +1,7 @@
 import Model.Placement
 import Proofs.C10Lookup
 import Proofs.C10Simple
+import Proofs.C10Nts
 /-!
 # C10 — replica sets for a token equal Cassandra's placement  (property theorems)
 
@@ -10,7 +11,7 @@ All theorems quantify over every ring / replication setting / token; the only st
 `Sorted` (strictly ascending tokens: what `sort.Sort` produces from pairwise distinct tokens).
 -/
 namespace C10
-open Placement C10Lookup C10Simple
+open Placement C10Lookup C10Simple C10Nts
 
 /-! ## ring lookup -/
 
@@ -113,5 +114,111 @@ theorem C10_simple_primary (ring : List Entry) (rf : Nat) (t : Int) (hs : Sorted
 
 example : (replicasFor (simpleReplicaMap 2 [(0, ⟨1, 1, 1⟩), (5, ⟨1, 1, 1⟩), (10, ⟨2, 1, 1⟩)]) 3).map (·.2)
     = some [⟨1, 1, 1⟩, ⟨2, 1, 1⟩] := by decide
+
+/-! ## NetworkTopologyStrategy — what holds for EVERY ring and EVERY rf map (vnodes, unknown DCs, rf 0, rf > DC size) -/
+
+/-- the replica map the loop builds when it does not panic: one entry per ring token whose primary's DC has rf > 0 -/
+def ntsDesc (rfs : List (Nat × Nat)) (hosts : List Host) (tokens : List Entry) : ReplicaRing :=
+  ((indexed tokens).filter (fun p => decide (rfOf rfs p.2.2.dc ≠ 0))).map
+    (fun p => (p.2.1, (ntsReplicasAt (mkCfg rfs hosts) tokens p.1).replicas))
+
+theorem nts_entry_good (rfs : List (Nat × Nat)) (hosts : List Host) (tokens : List Entry)
+    (hh : ∀ e ∈ tokens, e.2 ∈ hosts) (p : Nat × Entry) (hp : p ∈ indexed tokens) :
+    Good (mkCfg rfs hosts) (ntsReplicasAt (mkCfg rfs hosts) tokens p.1) ∧
+    (rfOf rfs p.2.2.dc ≠ 0 → (ntsReplicasAt (mkCfg rfs hosts) tokens p.1).replicas.head? = some p.2.2) := by
+  obtain ⟨hi, he⟩ := mem_indexed tokens p hp
+  refine ⟨good_walk _ _ _ (good_init _), ?_⟩
+  intro hrf
+  unfold ntsReplicasAt
+  rw [rot_head tokens p.1 hi, he, List.map_cons]
+  have hm : p.2 ∈ tokens := he ▸ List.getElem_mem hi
+  exact walk_head (mkCfg rfs hosts) rfl p.2.2 _ hrf (rack_known rfs hosts p.2.2 (hh p.2 hm))
+
+theorem ntsLoop_desc (rfs : List (Nat × Nat)) (hosts : List Host) (tokens : List Entry)
+    (hh : ∀ e ∈ tokens, e.2 ∈ hosts) :
+    ntsLoop (mkCfg rfs hosts) tokens (indexed tokens) [] = .ok (ntsDesc rfs hosts tokens) := by
+  rw [ntsLoop_ok (mkCfg rfs hosts) tokens (indexed tokens) []]
+  · simp only [List.nil_append]; rfl
+  · intro p hp hrf
+    obtain ⟨g, hd⟩ := nts_entry_good rfs hosts tokens hh p hp
+    exact ⟨g.nocrash, hd hrf⟩
+
+/-- `C10_no_panic`, the part that holds unconditionally: for every ring built from the hosts (any vnodes, racks, DCs)
+and every rf map, `networkTopology.replicaMap` either returns the described map or panics with
+"token map different size to token ring" — the "replica overflow", "no replicas for token" and
+"first replica is not the primary" panics can never fire. -/
+theorem C10_nts_panic_only_size (rfs : List (Nat × Nat)) (hosts : List Host) (tokens : List Entry)
+    (hh : ∀ e ∈ tokens, e.2 ∈ hosts) :
+    ntsReplicaMap rfs hosts tokens = .ok (ntsDesc rfs hosts tokens) ∨
+    ntsReplicaMap rfs hosts tokens = .error .sizeMismatch := by
+  unfold ntsReplicaMap
+  simp only [ntsLoop_desc rfs hosts tokens hh]
+  by_cases hc : (rfs.filter (fun p => decide (p.2 > 0))).length = (mkCfg rfs hosts).nDcRacks ∧
+      (ntsDesc rfs hosts tokens).length ≠ tokens.length
+  · right; rw [if_pos hc]
+  · left; rw [if_neg hc]
+
+theorem indexed_length {α : Type} (l : List α) : (indexed l).length = l.length := by simp [indexed]
+
+/-- FULL statement (false for the unchanged code, see `C10_cex_no_panic`):
+      ∀ rfs hosts tokens, (∀ e ∈ tokens, e.2 ∈ hosts) → crashOf (ntsReplicaMap rfs hosts tokens) = none.
+`_partial`: no panic when every datacenter of the ring has rf > 0 in the keyspace, or when the number of keyspace
+DCs with rf > 0 differs from the number of ring DCs (the guard of the faulty sanity check is then off). -/
+theorem C10_no_panic_partial (rfs : List (Nat × Nat)) (hosts : List Host) (tokens : List Entry)
+    (hh : ∀ e ∈ tokens, e.2 ∈ hosts)
+    (hyp : (∀ e ∈ tokens, rfOf rfs e.2.dc ≠ 0) ∨
+           (rfs.filter (fun p => decide (p.2 > 0))).length ≠ (mkCfg rfs hosts).nDcRacks) :
+    ntsReplicaMap rfs hosts tokens = .ok (ntsDesc rfs hosts tokens) := by
+  unfold ntsReplicaMap
+  simp only [ntsLoop_desc rfs hosts tokens hh]
+  rcases hyp with hall | hne
+  · have hlen : (ntsDesc rfs hosts tokens).length = tokens.length := by
+      unfold ntsDesc
+      rw [List.length_map, List.filter_eq_self.mpr, indexed_length]
+      intro p hp
+      obtain ⟨hi, he⟩ := mem_indexed tokens p hp
+      have hm : p.2 ∈ tokens := he ▸ List.getElem_mem hi
+      simpa using hall p.2 hm
+    simp [hlen]
+  · simp [hne]
+
+/-- D2, kernel-checked: keyspace {dc1:1, dc2:1} on a ring with dc1 and dc3 panics
+"token map different size to token ring". -/
+theorem C10_cex_no_panic :
+    crashOf (ntsReplicaMap [(1, 1), (2, 1)] [⟨1, 1, 1⟩, ⟨2, 3, 1⟩] [(0, ⟨1, 1, 1⟩), (10, ⟨2, 3, 1⟩)])
+      = some Crash.sizeMismatch := by decide
+
+/-- every entry of the map: per-DC replica count ≤ rf of that DC (for every ring — also with vnodes),
+and the first replica is the primary of the entry's token. -/
+theorem C10_nts_bound_rf (rfs : List (Nat × Nat)) (hosts : List Host) (tokens : List Entry)
+    (hh : ∀ e ∈ tokens, e.2 ∈ hosts) (e : Int × List Host) (he : e ∈ ntsDesc rfs hosts tokens) (d : Nat) :
+    (e.2.filter (fun x => decide (x.dc = d))).length ≤ rfOf rfs d := by
+  unfold ntsDesc at he
+  obtain ⟨p, hp, rfl⟩ := List.mem_map.mp he
+  obtain ⟨g, _⟩ := nts_entry_good rfs hosts tokens hh p (List.mem_filter.mp hp).1
+  rw [g.cnt d]
+  exact g.le d
+
+theorem C10_nts_primary_first (rfs : List (Nat × Nat)) (hosts : List Host) (tokens : List Entry)
+    (hh : ∀ e ∈ tokens, e.2 ∈ hosts) (e : Int × List Host) (he : e ∈ ntsDesc rfs hosts tokens) :
+    ∃ th ∈ tokens, th.1 = e.1 ∧ e.2.head? = some th.2 := by
+  unfold ntsDesc at he
+  obtain ⟨p, hp, rfl⟩ := List.mem_map.mp he
+  obtain ⟨hpi, hrf⟩ := List.mem_filter.mp hp
+  obtain ⟨hi, hel⟩ := mem_indexed tokens p hpi
+  obtain ⟨_, hd⟩ := nts_entry_good rfs hosts tokens hh p hpi
+  exact ⟨p.2, hel ▸ List.getElem_mem hi, rfl, hd (by simpa using hrf)⟩
+
+/-- D1, kernel-checked: ring {A:0,5; B:10; C:20}, one rack, rf {dc1:2}: token 0 ↦ [A, A]. -/
+theorem C10_cex_nts_dup :
+    (ntsReplicaMap [(1, 2)] [⟨1, 1, 1⟩, ⟨2, 1, 1⟩, ⟨3, 1, 1⟩]
+        [(0, ⟨1, 1, 1⟩), (5, ⟨1, 1, 1⟩), (10, ⟨2, 1, 1⟩), (20, ⟨3, 1, 1⟩)]).toOption
+      = some [(0, [⟨1, 1, 1⟩, ⟨1, 1, 1⟩]), (5, [⟨1, 1, 1⟩, ⟨2, 1, 1⟩]), (10, [⟨2, 1, 1⟩, ⟨3, 1, 1⟩]),
+              (20, [⟨3, 1, 1⟩, ⟨1, 1, 1⟩])] := by decide
+
+/-- … whereas Cassandra places token 0 on [A, B] -/
+theorem C10_cex_nts_dup_spec :
+    Spec.nts [(0, ⟨1, 1, 1⟩), (5, ⟨1, 1, 1⟩), (10, ⟨2, 1, 1⟩), (20, ⟨3, 1, 1⟩)] [(1, 2)] 0
+      = [⟨1, 1, 1⟩, ⟨2, 1, 1⟩] := by decide
 
 end C10
